@@ -769,6 +769,15 @@ class WorkerPool:
                     n_tasks = 0
                     while True:
 
+                        # When max_tasks_active is smaller than a chunk, more than max_tasks_active tasks can be active.
+                        # Get below the maximum again before obtaining the next chunk from the input
+                        while not self._worker_comms.exception_thrown() and n_active > max_tasks_active:
+                            try:
+                                yield imap_iterator.next(block=True, timeout=0.01)
+                                n_active -= 1
+                            except queue.Empty:
+                                pass
+
                         # Obtain next chunk of tasks
                         try:
                             chunk_of_tasks = next(iterator_of_chunked_args)
